@@ -156,6 +156,74 @@ def unhex(h):
         return h
 
 
+def run_one(case, work, tmp):
+    """run one case line on both sides -> (case text as printed by the harness, impl obs, model obs) or None"""
+    harness = os.path.join(vlib.BUILD, "storageharness")
+    model = os.path.join(vlib.BUILD, "model_store")
+    d = os.path.join(work, "shrink")
+    os.makedirs(d, exist_ok=True)
+    with open(os.path.join(d, "in.txt"), "w") as f:
+        f.write(case + "\n")
+    rc, _ = vlib.run([harness, "store-iso", "--out", d, "--tmp", tmp or d, "--n", "0", "--corpus", os.path.join(d, "in.txt"),
+                      "--case-timeout", "8"], timeout=120)
+    if rc != 0:
+        return None
+    try:
+        m = vlib.run_model(model, "store", os.path.join(d, "cases.txt"), os.path.join(d, "model.txt"), timeout=60)
+    except RuntimeError:
+        return None
+    cs, im = vlib.read_lines(os.path.join(d, "cases.txt")), vlib.read_lines(os.path.join(d, "impl.txt"))
+    if not cs or not im or not m:
+        return None
+    return cs[0], im[0], m[0]
+
+
+def shrink_replays(c, tmp, budget_s=15):
+    """greedy minimisation of the replays of direct violations: drop transactions while the same key reproduces"""
+    import time
+    t0 = time.time()
+    seen = set()
+    for key, path, no_input in list(c.violations):
+        if no_input or key in seen or time.time() - t0 > budget_s:
+            continue
+        seen.add(key)
+        full = os.path.join(vlib.VERIF, path)
+        try:
+            rp = json.load(open(full))
+        except Exception:
+            continue
+        if "case" not in rp or rp.get("gen", {}).get("index", 0) < 0:
+            continue
+        parts = rp["case"].split(" TX ")
+        head, txs = parts[0], parts[1:]
+        if len(txs) <= 2:
+            continue
+
+        def reproduces(cand):
+            r = run_one(head + "".join(" TX " + t for t in cand), c.work, tmp)
+            if r is None:
+                return None
+            case, i, m = r
+            sch, ctx = storefam.split_case(case)
+            got = oracle(sch, ctx, storefam.parse_obs(i), storefam.parse_obs(m))
+            return (case, i, m) if any(k == key for k, _, _ in got) else None
+
+        best = None
+        k = len(txs) - 1
+        while k >= 0 and time.time() - t0 <= budget_s:
+            cand = txs[:k] + txs[k + 1:]
+            r = reproduces(cand) if cand else None
+            if r is not None:
+                txs, best = cand, r
+            k -= 1
+        if best is not None:
+            rp["original_case"] = rp["case"]
+            rp["case"], rp["impl"], rp["model"] = best
+            rp["shrunk"] = "greedy removal of transactions; %d remain" % len(txs)
+            with open(full, "w") as f:
+                json.dump(rp, f, indent=1, sort_keys=True)
+
+
 def main(argv):
     c = vlib.Check(PID, argv)
     c.assumptions = ["bbolt rollback restores the previous content (trusted; observed by the full traversal after every transaction)",
@@ -180,6 +248,8 @@ def main(argv):
             "transitive referrers, a refused operation changed nothing, no delete fails with an unclassified error.",
             trusted_extra=["harness store_c04.go (C04 generator, child-process isolation: a dead child is reported as CRASH)"],
             subcmd="store-iso", tmpdir=tmp, extra_args=["--case-timeout", "8"])
+        if c.violations and not c.replay:
+            shrink_replays(c, tmp)
     finally:
         if tmp:
             import shutil
